@@ -28,8 +28,15 @@ RULES = {
     "R5": "one resolution order for names (shared rule S2): every scan of the deserializer's scope stack lets the innermost "
     "binding win, so the value a sharding reference resolves to is the value the node's own input of that name resolves "
     "to - otherwise a (malformed) model with a shadowed name yields an IR whose reference links disagree",
+    "R6": "stable emission: a field whose presence alone makes the serializer emit a value_info entry (the conjuncts of the "
+    "emission predicate) is stored by serialize_value_into unconditionally or through a writer without a skip path that "
+    "ignores the data - otherwise the entry carries only a name, deserializes to a value without information and is dropped "
+    "by the next serialization, so the serialized form is not a fixed point",
+    "R7": "fixed point of function value information below IR version 10 (shared rule S9): the parser of the composite names the serializer builds "
+    "({domain}::{function}/{value}) splits at one occurrence of each separator (partition / maxsplit), never with an unbounded "
+    "split followed by a length test - value names are free text and routinely contain '/'",
 }
-FLOORS = {"R1": 45, "R2": 6, "R3": 5, "R4": 5, "R5": 2}
+FLOORS = {"R1": 45, "R2": 6, "R3": 5, "R4": 5, "R5": 2, "R6": 3, "R7": 2}
 EXPLANATION = (
     "Effect summaries (file-system primitives through the resolved call graph) for the deserialization entry set and "
     "the cheap tensor accessors; a sub-term analysis of every recursive call edge of the deserializer; dominator "
@@ -320,7 +327,102 @@ def rule_r4(ctx):
     ctx.require(n >= 5, f"only {n} owned-value arguments of Graph constructors found in the deserializer")
 
 
+def _emission_predicates(ctx):
+    """Boolean one-parameter functions of serde used as the test that decides whether a value_info entry is written."""
+    m = ctx.repo.modules[SERDE]
+    out = []
+    for g in m.functions.values():
+        if isinstance(g.node, ast.Lambda) or len(g.params) != 1:
+            continue
+        rets = [r for r in own_nodes(g.node) if isinstance(r, ast.Return)]
+        if not rets or not all(isinstance(r.value, ast.Constant) and isinstance(r.value.value, bool) for r in rets):
+            continue
+        used = 0
+        for f in m.all_funcs:
+            if isinstance(f.node, ast.Lambda):
+                continue
+            calls_g = [c for c in calls_in(f) if dotted_of(c.func) == g.name]
+            writes = [c for c in calls_in(f) if (dotted_of(c.func) or "").endswith("serialize_value_into")]
+            if calls_g and writes:
+                used += 1
+        if used:
+            out.append(g)
+    return out
+
+
+def _resolve_alias(m, name):
+    seen = set()
+    while name in m.assigns and name not in seen and isinstance(m.assigns[name], ast.Name):
+        seen.add(name)
+        name = m.assigns[name].id
+    return m.functions.get(name)
+
+
+def rule_r6(ctx):
+    m = ctx.repo.modules[SERDE]
+    preds = _emission_predicates(ctx)
+    ctx.require(bool(preds), "emission predicate of value_info entries not found")
+    w = m.functions.get("serialize_value_into")
+    ctx.require(w is not None and len(w.params) >= 2, "serialize_value_into not found")
+    data = w.params[1]
+    n = 0
+    for g in preds:
+        p0 = g.params[0]
+        # the conjunction that answers False: fields whose absence is required for "nothing to emit"
+        fields: dict[str, ast.AST] = {}
+        for i in (x for x in own_nodes(g.node) if isinstance(x, ast.If)):
+            if not any(isinstance(s, ast.Return) and isinstance(s.value, ast.Constant) and s.value.value is False for s in i.body):
+                continue
+            if not isinstance(i.test, ast.BoolOp) or not isinstance(i.test.op, ast.And):
+                continue
+            for t in i.test.values:
+                for x in ast.walk(t):
+                    if isinstance(x, ast.Attribute) and isinstance(x.value, ast.Name) and x.value.id == p0:
+                        fields.setdefault(x.attr, t)
+        for fld, t in sorted(fields.items()):
+            n += 1
+            # how the writer stores it
+            sites = [x for x in own_nodes(w.node) if isinstance(x, ast.If) and any(
+                isinstance(y, ast.Attribute) and isinstance(y.value, ast.Name) and y.value.id == data and y.attr == fld for y in ast.walk(x.test))]
+            bad = None
+            if not sites:
+                bad = f"serialize_value_into never stores `{fld}`"
+            for i in sites:
+                for c in (x for b in i.body for x in ast.walk(b) if isinstance(x, ast.Call)):
+                    h = _resolve_alias(m, dotted_of(c.func) or "")
+                    if h is None or isinstance(h.node, ast.Lambda):
+                        continue
+                    dparams = set(h.params[1:])
+                    last = h.node.body[-1]
+                    for r in own_nodes(h.node):
+                        if not isinstance(r, ast.Return) or r is last or r.value is not None:
+                            continue
+                        # guards of the skip: do they depend on the data being written?
+                        dep, p_ = False, getattr(r, "_parent", None)
+                        while p_ is not None and p_ is not h.node:
+                            if isinstance(p_, (ast.If, ast.While)):
+                                names = {y.id for y in ast.walk(p_.test) if isinstance(y, ast.Name)}
+                                for _ in range(3):
+                                    for a in own_nodes(h.node):
+                                        if isinstance(a, ast.Assign) and any(isinstance(tg, ast.Name) and tg.id in names for tg in a.targets):
+                                            names |= {y.id for y in ast.walk(a.value) if isinstance(y, ast.Name)}
+                                dep |= bool(names & dparams)
+                            p_ = getattr(p_, "_parent", None)
+                        if not dep:
+                            bad = f"`{fld}` is stored by {h.local}, which returns without writing on a path that does not depend on the data"
+            ctx.check("R6", f"{g.local}: `{fld}` alone justifies an entry and is always stored", bad is None, g, t,
+                      f"{g.local} answers True for a value that has only `{fld}`, but {bad}: the emitted entry then carries just the name; "
+                      "deserialized it is a value without information, for which no entry is emitted - serialize(deserialize(P)) != P",
+                      how="conjuncts of the emission predicate × writers in serialize_value_into (skip paths whose guards ignore the data)",
+                      construct=f"emission predicate counts {fld}")
+    ctx.require(n >= 3, f"only {n} fields found in the emission predicate")
+
+
 def run(ctx):
+    from ..shared import rule_s9
+
+    rule_s9(ctx, "R7", "the entry is written but ignored on reading, so it disappears on the next serialization: serialize(deserialize(P)) != P")
+    rule_r6(ctx)
     ef = ctx._shared.get("effects")
     if ef is None:
         ef = ctx._shared["effects"] = Effects(ctx.repo, ctx.typer, tier4=(ctx.tier == "thorough"))
